@@ -36,6 +36,20 @@ def queries(tier):
                                 params={"lemma": "L2 send", "protocol": proto, "remaining_words": nr, "destination": ["pipe0", "pipe1", "unknown id"][dest]}))
     qs += device_queries(tier)
     qs += xreq_queries(tier)
+    # the cooked reply sides (rep.c, respond.c): hop-limit boundary and malformed backtraces through the C04 / C07 harnesses
+    from props import C04, C07, C17
+    names = set(q.name for q in qs)
+    for q in C04.queries(tier) + C07.queries(tier):
+        if q.name.startswith(("rep-", "repctx-", "resp-", "respctx-")) and ("QB" in q.name or "Q07" in q.name):
+            if q.name not in names:
+                names.add(q.name)
+                q.group = "~" + q.group
+                qs.append(q)
+    # the header capacity guard everything above relies on (the real core/message.c: 64 bytes, append beyond it fails and changes nothing)
+    for q in C17.queries(tier):
+        if q.name.startswith("api-h_"):
+            q.group = "~" + q.group
+            qs.append(q)
     return qs
 
 
